@@ -299,6 +299,13 @@ pub fn run_bulk_then(bulk: Bulk, h: &[Kv], next: Option<&Kv>) -> Result<(), Stri
 /// populated builder - twice in a row for the empty remainder -, then a valid
 /// insert and finish.
 pub fn run_inserts_then_bulk(bulk: Bulk, h: &[Kv], split: usize) -> Result<(), String> {
+    run_inserts_then_bulk_then(bulk, h, split, None)
+}
+
+/// ... and, with `next`, one further single insert after the bulk call (a key the
+/// builder saw BEFORE the bulk call must be judged against what the bulk call
+/// accepted since).
+pub fn run_inserts_then_bulk_then(bulk: Bulk, h: &[Kv], split: usize, next: Option<&Kv>) -> Result<(), String> {
     guard(|| {
         let is_map = bulk.is_map();
         let mut m = RefBuilder::default();
@@ -336,6 +343,13 @@ pub fn run_inserts_then_bulk(bulk: Bulk, h: &[Kv], split: usize) -> Result<(), S
         if got != want {
             return Err(format!("{} single inserts, then {:?} of the remaining {} items returned {:?}, the reference builder says {:?}", split, bulk, rest.len(), got, want));
         }
+        if let Some((k, v)) = next {
+            let want = m.call(is_map, k, *v);
+            let got = classify(&call(&mut b, kind, k, *v))?;
+            if got != want {
+                return Err(format!("{} single inserts, then {:?} of the remaining {} items, then insert({}): returned {:?}, the reference builder says {:?}", split, bulk, rest.len(), key_str(k), got, want));
+            }
+        }
         let tail: Kv = (vec![0xff, 0xff, 0xff], if is_map { 9 } else { 0 });
         call(&mut b, kind, &tail.0, tail.1).map_err(|e| format!("insert after the bulk call failed: {:?}", e))?;
         let bytes = finish(b).map_err(|e| format!("finish failed: {:?}", e))?;
@@ -361,10 +375,10 @@ pub fn replay(case: &Value) -> Result<String, String> {
         run_history(*k, &h).map(|_| "history agrees with the model".into())
     } else {
         let b = BULKS.iter().find(|k| format!("{:?}", k) == name).unwrap();
-        if let Some(sp) = case.get("split").and_then(|x| x.as_u64()) {
-            return run_inserts_then_bulk(*b, &h, sp as usize).map(|_| "inserts then bulk call agree with the model".into());
-        }
         let next: Option<Kv> = case.get("next").filter(|n| !n.is_null()).map(|n| (unhex(n[0].as_str().unwrap()), n[1].as_u64().unwrap()));
+        if let Some(sp) = case.get("split").and_then(|x| x.as_u64()) {
+            return run_inserts_then_bulk_then(*b, &h, sp as usize, next.as_ref()).map(|_| "inserts then bulk call agree with the model".into());
+        }
         run_bulk_then(*b, &h, next.as_ref()).map(|_| "bulk call agrees with the model".into())
     }
 }
@@ -377,7 +391,7 @@ pub fn plan(tier: Tier) -> Plan {
     } else {
         vec![b"".to_vec(), b"a".to_vec(), b"a\0".to_vec(), b"ab".to_vec(), b"b".to_vec()]
     };
-    p.rule = format!("every call history (valid, duplicate, smaller and empty keys at every position) of length <= depth over insert(k[,v]), k in {} keys, v in {{0,5}} for maps, on MapBuilder, SetBuilder, raw::Builder(insert only / add only); after EVERY prefix the builder is finished on a replayed copy and read back; each call result (variant and payload) and the content are compared with a reference builder, and the finished bytes with those of a builder of the same kind that only saw the accepted calls; the same histories go through from_iter / extend_iter / extend_stream (followed, for histories of length 2..4, by one further insert of every key of the alphabet, judged by the reference builder, and a final valid insert; and, for histories of length <= 4, split at every point into single inserts followed by one bulk call on the populated builder). non-trivial = histories containing at least one rejected call", keys.len());
+    p.rule = format!("every call history (valid, duplicate, smaller and empty keys at every position) of length <= depth over insert(k[,v]), k in {} keys, v in {{0,5}} for maps, on MapBuilder, SetBuilder, raw::Builder(insert only / add only); after EVERY prefix the builder is finished on a replayed copy and read back; each call result (variant and payload) and the content are compared with a reference builder, and the finished bytes with those of a builder of the same kind that only saw the accepted calls; the same histories go through from_iter / extend_iter / extend_stream (followed, for histories of length 2..4, by one further insert of every key of the alphabet, judged by the reference builder, and a final valid insert; and, for histories of length <= 4, split at every point into single inserts followed by one bulk call on the populated builder, followed in turn - for histories of length <= 3 - by one further insert of every key of the alphabet). non-trivial = histories containing at least one rejected call", keys.len());
     p.assumptions = vec!["mixing add and insert on one raw builder is outside the property".into()];
     let alphabet_map: Vec<Kv> = keys.iter().flat_map(|k| [(k.clone(), 0u64), (k.clone(), 5u64)]).collect();
     let alphabet_set: Vec<Kv> = keys.iter().map(|k| (k.clone(), 0u64)).collect();
@@ -445,6 +459,17 @@ pub fn plan(tier: Tier) -> Plan {
                                     st.count("inserts_then_bulk_calls", 1);
                                     if let Err(msg) = run_inserts_then_bulk(bulk, &h, split) {
                                         rep.violation(format!("{:?} [{}] split {}", bulk, hist_str(&h), split), msg, json!({"target": format!("{:?}", bulk), "history": hist_json(&h), "split": split}));
+                                    }
+                                    // ... then one further insert of every key of the alphabet
+                                    if h.len() <= 3 {
+                                        for a in alphabet.iter() {
+                                            st.states += 1;
+                                            st.evals += 1;
+                                            st.count("inserts_then_bulk_then_insert_calls", 1);
+                                            if let Err(msg) = run_inserts_then_bulk_then(bulk, &h, split, Some(a)) {
+                                                rep.violation(format!("{:?} [{}] split {} then {}", bulk, hist_str(&h), split, key_str(&a.0)), msg, json!({"target": format!("{:?}", bulk), "history": hist_json(&h), "split": split, "next": [hex(&a.0), a.1]}));
+                                            }
+                                        }
                                     }
                                 }
                             }
